@@ -58,6 +58,11 @@ CLAIMED["C13"] = dict(
    ref="DESIGN.md §6 C13",
    note="Trusts: the value universe's host-side equality keys. Verdicts are captured as `[v] = [a =&b]`; a plain `v = a =&b` binding followed by further steps is avoided because the compiler narrows `a` after a failing pinned match and drops later steps (sequential-core behaviour, outside this property's simulated scope; noted in DESIGN.md).",
    technique="deterministic simulation: placement/schedule search with a structural-equality model over values transported across process, worker and program-update boundaries")
+CLAIMED["C10"] = dict(
+   text="Scoped: what simulation decides is the merge leg - Environment::merge_bytecode is a stateful, history-dependent remapping shipped incrementally to every worker, possibly while processes compiled against earlier states are running. A subject program (union dispatch, recursive types, partial types, closures with binary captures, typed-receive processes, a helper record, C03's confluent process family) is run as compiled in a fresh environment (reference) and then under variants that draw a history of 0-6 previously merged programs and second-session REPL lines (other tuple shapes, same-named tuples with other field types, other constants/builtins), some still running at merge time, merges landing while the subject runs, plus - as per-run configuration riding on the same oracle - the load path (as compiled / tree-shaken / JSON round trip / REPL) and helpers inlined vs imported from an in-memory module, all under sampled schedules. The subject's canonical result must equal the reference, Bytecode must survive the JSON round trip unchanged, and at the end every worker's program tables must be index-aligned with and equal to the environment's. Sampling, not proof; tree-shake/serde/import on their own are pure functions and are not claimed as decided by this technique.",
+   ref="DESIGN.md §6 C10",
+   note="Trusts: the reference run (as compiled, fresh environment, fair schedule) as ground truth, the harness re-implementation of `quiv run`/`quiv compile`. The evidence reports history-leg and configuration-leg run counts separately.",
+   technique="deterministic simulation: merge-history and schedule search with a reference execution; packaging options as sampled configuration")
 PENDING = {k: 'claimed in DESIGN.md; check under construction in this revision (not yet registered)' for k in ['C10']}
 
 def main():
